@@ -146,6 +146,104 @@ class GuardUnit:
         return res
 
 
+class CoverageGuardUnit:
+    """the coverage guard of the abstract model constructors: the REAL top-level `if len(<constraints>) > 0:` statement of __init__ that checks the
+    coverage parameters is executed symbolically with an arbitrary number of constraints, an arbitrary real coverage and (DAG class) an arbitrary /
+    absent length coverage and length attribute; it must raise ValueError exactly for the documented invalid combinations."""
+
+    def __init__(self, relpath, cls, par, cov, covlen=None):
+        self.relpath, self.cls, self.par, self.cov, self.covlen = relpath, cls, par, cov, covlen
+        self.name = "%s:%s.__init__[guard on %s]" % (relpath, cls, cov)
+        self.props = [P, "C10"]
+
+    def execute(self, cross=False):
+        t0 = time.time()
+        res = dict(unit=self.name, file=self.relpath, function=self.cls + ".__init__", props=self.props, status="ok", assumptions=[], obligations=[], paths=0, aborted_paths=0,
+                   abstractions=["only the coverage-guard statement is executed symbolically; that it sits at the top level of __init__ (always executed) is checked syntactically"],
+                   callee_contracts=[])
+        path = os.path.join(REPO, self.relpath)
+        src = open(path, encoding="utf-8").read()
+        tree = ast.parse(src)
+        try:
+            fn = find_function(tree, self.cls + ".__init__")
+        except LookupError as e:
+            res.update(status="unsupported", reason=str(e), wall_s=0)
+            return res
+        res["sha256"] = hashlib.sha256((ast.get_source_segment(src, fn) or "").encode()).hexdigest()
+
+        def mentions(node, attr):
+            return any(isinstance(n, ast.Attribute) and n.attr == attr for n in ast.walk(node))
+        cands = [st for st in fn.body if isinstance(st, ast.If) and mentions(st, self.cov) and _raises_value_error([n for n in ast.walk(st) if isinstance(n, ast.Raise)] or [])]
+
+        def ob(name, ok, info=None, line=None):
+            res["obligations"].append(dict(name="%s::%s" % (self.name, name), base=name, kind="xpost", prop=",".join(self.props), line=line, backend="pyvc(guard)", time_s=0.0,
+                                           status="discharged" if ok else "failed", info=info or {}, model=None if ok else (info or {})))
+        ob("guard:a-top-level-statement-of-__init__-checks-%s-and-raises-ValueError" % self.cov, bool(cands))
+        if not cands:
+            res["wall_s"] = round(time.time() - t0, 3)
+            return res
+        gst = cands[0]
+        mod = ast.Module(body=[ast.FunctionDef(name="__guard", args=ast.arguments(posonlyargs=[], args=[ast.arg("self"), ast.arg(self.par)], kwonlyargs=[], kw_defaults=[], defaults=[]),
+                                               body=[gst, ast.Return(ast.Constant("passed"))], decorator_list=[], lineno=gst.lineno, col_offset=0, end_lineno=gst.end_lineno, end_col_offset=0)], type_ignores=[])
+        ast.fix_missing_locations(mod)
+        g = dict(BUILTINS)
+        g.update(utils=UtilsStub, __name__="flowpaths.<guard>")
+        exec(compile(mod, path, "exec"), g)
+        guard = g["__guard"]
+        variants = [(False, False)] if self.covlen is None else [(False, False), (True, False), (True, True)]
+        obls_all = []
+        for has_len, has_attr in variants:
+            def run(c, has_len=has_len, has_attr=has_attr):
+                class Me:
+                    pass
+                me = Me()
+                m = c.fresh_const("n_constraints", INT)
+                c.assume(m >= 0)
+                cov = c.fresh_const("coverage", REAL)
+                setattr(me, self.cov, Sym(cov))
+                cl = None
+                if self.covlen is not None:
+                    cl = c.fresh_const("coverage_length", REAL) if has_len else None
+                    setattr(me, self.covlen, Sym(cl) if has_len else None)
+                    me.length_attr = "len" if has_attr else None
+                cons = SymSeq(m, lambda j: Sym(z3.IntVal(0)), SInt, self.par)
+                setattr(me, self.par, cons)
+                try:
+                    guard(me, cons)
+                    raised = False
+                except ValueError:
+                    raised = True
+                bad = z3.Or(cov <= 0, cov > 1)
+                if has_len:
+                    bad = z3.Or(bad, cl <= 0, cl > 1, z3.BoolVal(not has_attr), cov < 1)
+                invalid = z3.And(m > 0, bad)
+                tag = "length-coverage-%s,length_attr-%s" % ("given" if has_len else "absent", "given" if has_attr else "absent")
+                c.prove("guard[%s]:%s-only-if-%s" % (tag, "rejected" if raised else "accepted", "constraints-are-given-and-a-coverage-parameter-is-invalid" if raised else "there-are-no-constraints-or-all-coverage-parameters-are-valid"),
+                        invalid if raised else z3.Not(invalid), prop=",".join(self.props), kind="xpost")
+            try:
+                obls, npaths, aborted, notes = explore(run)
+            except Unsupported as e:
+                res.update(status="unsupported", reason=str(e))
+                break
+            res["paths"] += npaths
+            obls_all += obls
+        seen = set()
+        for o in obls_all:
+            key = (o.name, o.goal.get_id(), tuple(h.get_id() for h in o.hyps))
+            if key in seen:
+                continue
+            seen.add(key)
+            r = smt.discharge_one(o)
+            r.pop("_model_obj", None)
+            n = sum(1 for x in res["obligations"] if x.get("base") == o.name)
+            r["name"] = "%s::%s%s" % (self.name, o.name, "" if n == 0 else "~%d" % n)
+            r["base"] = o.name
+            res["obligations"].append(r)
+        res["wall_s"] = round(time.time() - t0, 3)
+        res["solver_time_s"] = 0.0
+        return res
+
+
 # ---------------------------------------------------------------------------------------------
 # validators
 
@@ -302,4 +400,6 @@ def u_constraint_validators():
 
 
 def all_units():
-    return [GuardUnit(r, c) for r, c in KMODELS] + [u_max_flow_check()] + u_constraint_validators()
+    return [GuardUnit(r, c) for r, c in KMODELS] + [u_max_flow_check()] + u_constraint_validators() + [
+        CoverageGuardUnit("flowpaths/abstractpathmodeldag.py", "AbstractPathModelDAG", "subpath_constraints", "subpath_constraints_coverage", "subpath_constraints_coverage_length"),
+        CoverageGuardUnit("flowpaths/abstractwalkmodeldigraph.py", "AbstractWalkModelDiGraph", "subset_constraints", "subset_constraints_coverage")]
